@@ -33,12 +33,10 @@ func (p *Prog) Inlined(f *ssa.Function, keep func(callee *ssa.Function) bool) *s
 	return p.inlinedDepth(f, inlineDepth, keep)
 }
 
-func (p *Prog) inlinedDepth(f *ssa.Function, depth int, keep func(callee *ssa.Function) bool) *ssa.Function {
-	if f == nil || len(f.Blocks) == 0 {
-		return f
-	}
-	// branch folding in views may use: the load of an error variable that is only assigned errors.New/fmt.Errorf by its
-	// initialiser is not nil
+// setNonNilHook: facts branch folding in views may use. The load of an error variable that is only assigned
+// errors.New/fmt.Errorf by its initialiser is not nil; neither is an exported error variable of a package outside the
+// repository (io.EOF, io.ErrUnexpectedEOF, context.Canceled ...: sentinel values of the standard library).
+func (p *Prog) setNonNilHook() {
 	ssa.KnownNonNilHook = func(v ssa.Value) bool {
 		u, ok := v.(*ssa.UnOp)
 		if !ok || u.Op != token.MUL {
@@ -48,6 +46,9 @@ func (p *Prog) inlinedDepth(f *ssa.Function, depth int, keep func(callee *ssa.Fu
 		if !ok {
 			return false
 		}
+		if g.Pkg != nil && g.Pkg.Pkg != nil && p.Pkgs[g.Pkg.Pkg.Path()] == nil && g.Object() != nil && g.Object().Exported() && isErrorType(u.Type()) {
+			return true
+		}
 		if c, ok := p.ConstGlobal(g).(*ssa.Call); ok {
 			switch calleeName(&c.Call) {
 			case "errors.New", "fmt.Errorf":
@@ -56,6 +57,15 @@ func (p *Prog) inlinedDepth(f *ssa.Function, depth int, keep func(callee *ssa.Fu
 		}
 		return false
 	}
+}
+
+func (p *Prog) inlinedDepth(f *ssa.Function, depth int, keep func(callee *ssa.Function) bool) *ssa.Function {
+	if f == nil || len(f.Blocks) == 0 {
+		return f
+	}
+	// branch folding in views may use: the load of an error variable that is only assigned errors.New/fmt.Errorf by its
+	// initialiser is not nil
+	p.setNonNilHook()
 	if keep == nil {
 		if m := inlineCache[p]; m != nil {
 			if g, ok := m[inlineKey{f, depth}]; ok {
